@@ -1,5 +1,5 @@
 (* C17 - proofs about the transaction state machine of Store/C17Txn.v.  All statements are about ALL states /
-   histories; table contents and write operations are arbitrary. *)
+   histories; table contents, write operations and multi-table statements are arbitrary. *)
 From Coq Require Import List NArith Bool Lia.
 Import ListNotations.
 From GMS Require Import Store.C17Txn.
@@ -8,15 +8,20 @@ Section Proofs.
 Variable data : Type.
 Variable wop : Type.
 Variable apply : wop -> data -> option data.
+Variable mop : Type.
+Variable mtabs : mop -> list tid.
+Variable mwrites : mop -> bool.
+Variable mexec : mop -> list data -> mres data.
 
 Notation sess := (sess data).
 Notation state := (state data).
-Notation step := (step apply).
-Notation run := (run apply).
+Notation stmt := (stmt wop mop).
+Notation step := (step apply mtabs mwrites mexec).
+Notation run := (run apply mtabs mwrites mexec).
 
 (* pointwise equality of session records / states (their fields are functions) *)
 Definition sess_eq (a b : sess) : Prop :=
-  (forall t, staged a t = staged b t) /\ tx a = tx b /\ ign a = ign b /\ ac a = ac b.
+  (forall t, staged a t = staged b t) /\ tx a = tx b /\ ign a = ign b /\ ac a = ac b /\ ro a = ro b.
 
 Lemma sess_eq_refl a : sess_eq a a.
 Proof. repeat split. Qed.
@@ -33,22 +38,73 @@ Proof. unfold put. now rewrite N.eqb_refl. Qed.
 Lemma put_other (stg : tid -> option data) t x t' : t' <> t -> put stg t x t' = stg t'.
 Proof. intros H. unfold put. apply N.eqb_neq in H. now rewrite H. Qed.
 
+Lemma begin_tx_tx (se : sess) : tx (begin_tx se) = true.
+Proof. unfold begin_tx. destruct (tx se) eqn:E; auto. Qed.
+
+Lemma begin_tx_ign (se : sess) : ign (begin_tx se) = ign se.
+Proof. unfold begin_tx. destruct (tx se); auto. Qed.
+
+Lemma begin_tx_ac (se : sess) : ac (begin_tx se) = ac se.
+Proof. unfold begin_tx. destruct (tx se); auto. Qed.
+
+(* control flow of [step] *)
+Ltac break :=
+  repeat match goal with
+  | |- context [if ?b then _ else _] => destruct b eqn:?
+  | |- context [match apply ?w ?x with _ => _ end] => destruct (apply w x) eqn:?
+  | |- context [match mexec ?m ?x with _ => _ end] => destruct (mexec m x) eqn:?
+  end.
+
+(* a statement of session s leaves the records of the other sessions alone *)
+Lemma step_other_sess st s q s' : s' <> s -> ss (fst (step st s q)) s' = ss st s'.
+Proof.
+  intros Hn. unfold C17Txn.step. set (se := begin_tx (ss st s)). cbn zeta.
+  destruct q; break; cbn [fst ss rejected closed closed_ic]; now apply set_sess_other.
+Qed.
+
 (* ------------------------------------------------------------------------------------------------ *)
-(* 1. A statement of a session whose transaction is open and not auto-committing (explicit START
-      TRANSACTION, or autocommit off) and that is not itself BEGIN / COMMIT / ROLLBACK / SET autocommit
-      changes neither the database nor any other session.                                            *)
+(* 1. A statement of a session that is inside an explicit transaction or has autocommit off, and that is
+      not itself a transaction-control or implicit-commit statement, changes neither the database nor any
+      other session.                                                                                  *)
 
-Definition quiet (q : stmt wop) : bool :=
-  match q with Read _ | Write _ _ | WriteAll _ _ | Bad => true | _ => false end.
+Definition quiet (q : stmt) : bool :=
+  match q with Read _ | Write _ _ | WriteAll _ _ | Multi _ | Bad | Savepoint => true | _ => false end.
 
-(* the session holds an open transaction that the end of a statement will not commit *)
-Definition holding (se : sess) : Prop := tx se = true /\ (ign se = true \/ ac se = false).
+(* the end of a statement will not commit: ignoreAutocommit is set (explicit START TRANSACTION not yet ended by
+   COMMIT / ROLLBACK) or autocommit is off *)
+Definition holding (se : sess) : Prop := ign se = true \/ ac se = false.
 
 Lemma close_holding (d : tid -> data) (se : sess) a :
   holding se -> a = ac se -> close d se a = (d, se).
 Proof.
-  intros [Htx Hm] ->. unfold close. rewrite Htx. cbn. destruct (ign se); auto.
-  destruct Hm as [Hm|Hm]; [discriminate|]. now rewrite Hm.
+  intros Hm ->. unfold close. destruct (tx se); cbn; auto. destruct (ign se) eqn:Ei; auto.
+  destruct Hm as [Hm|Hm]; [congruence|]. now rewrite Hm.
+Qed.
+
+Lemma fail_sess_holding (se : sess) : holding se -> fail_sess se = se.
+Proof.
+  intros Hm. unfold fail_sess. destruct (ign se) eqn:Ei; auto.
+  destruct Hm as [Hm|Hm]; [congruence|]. now rewrite Hm.
+Qed.
+
+Lemma holding_with_stg (se : sess) g : holding se -> holding (with_stg se g).
+Proof. auto. Qed.
+
+Lemma holding_begin_tx (se : sess) : holding se -> holding (begin_tx se).
+Proof. unfold holding. now rewrite begin_tx_ign, begin_tx_ac. Qed.
+
+(* the shape of a quiet step of a holding session *)
+Lemma step_quiet_shape st s q :
+  holding (ss st s) -> quiet q = true ->
+  exists g, fst (step st s q) = mkState (db st) (set_sess (ss st) s (with_stg (begin_tx (ss st s)) g)).
+Proof.
+  intros Hh Hq. unfold C17Txn.step. set (se := begin_tx (ss st s)). cbn zeta.
+  assert (Hse : holding se) by now apply holding_begin_tx.
+  assert (Hc : forall g r, closed st s se g r = (mkState (db st) (set_sess (ss st) s (with_stg se g)), r)).
+  { intros g r. unfold closed. rewrite close_holding; auto. }
+  assert (Hr : forall g, rejected st s se g = (mkState (db st) (set_sess (ss st) s (with_stg se g)), RErr)).
+  { intros g. unfold rejected. rewrite fail_sess_holding; auto. }
+  destruct q; try discriminate; break; rewrite ?Hc, ?Hr; eexists; reflexivity.
 Qed.
 
 Lemma step_quiet_holding st s q :
@@ -56,22 +112,9 @@ Lemma step_quiet_holding st s q :
   let st' := fst (step st s q) in
   (forall t, db st' t = db st t) /\ (forall s', s' <> s -> ss st' s' = ss st s') /\ holding (ss st' s).
 Proof.
-  intros Hh Hq. pose proof Hh as [Htx Hm]. unfold step, begin_tx. rewrite Htx.
-  assert (Hc : forall g, close (db st) (mkSess g (tx (ss st s)) (ign (ss st s)) (ac (ss st s))) (ac (ss st s))
-               = (db st, mkSess g (tx (ss st s)) (ign (ss st s)) (ac (ss st s)))).
-  { intros g. apply close_holding; [exact Hh|reflexivity]. }
-  destruct q as [t|t w| | | |b| |t w|t w]; try discriminate; cbn -[touch touch_all put cur close].
-  - (* Read *)
-    rewrite Hc. cbn -[touch put cur]. repeat split; auto; intros; try (now apply set_sess_other); rewrite set_sess_same; cbn; auto.
-  - (* Write *)
-    rewrite Hc. cbn -[touch put cur]. repeat split; auto; intros; try (now apply set_sess_other); rewrite set_sess_same; cbn; auto.
-  - (* Bad *)
-    destruct (ign (ss st s)) eqn:Ei.
-    + repeat split; auto; intros; try (now apply set_sess_other); rewrite set_sess_same; auto.
-    + destruct Hm as [Hm|Hm]; [discriminate|]. rewrite Hm.
-      repeat split; auto; intros; try (now apply set_sess_other); rewrite set_sess_same; auto.
-  - (* WriteAll *)
-    rewrite Hc. cbn -[touch touch_all put cur]. repeat split; auto; intros; try (now apply set_sess_other); rewrite set_sess_same; cbn; auto.
+  intros Hh Hq. cbn zeta. destruct (step_quiet_shape st s q Hh Hq) as [g ->]. cbn [db ss].
+  split; [auto|]. split; [intros; now apply set_sess_other|]. rewrite set_sess_same.
+  apply holding_with_stg. now apply holding_begin_tx.
 Qed.
 
 (* ------------------------------------------------------------------------------------------------ *)
@@ -86,13 +129,35 @@ Lemma cur_ext (d1 d2 : tid -> data) (g1 g2 : tid -> option data) t :
   (forall t, d1 t = d2 t) -> (forall t, g1 t = g2 t) -> cur d1 g1 t = cur d2 g2 t.
 Proof. intros Hd Hg. unfold cur. rewrite Hg, Hd. reflexivity. Qed.
 
-Lemma put_ext (g1 g2 : tid -> option data) t x t' :
-  (forall t, g1 t = g2 t) -> put g1 t x t' = put g2 t x t'.
-Proof. intros Hg. unfold put. destruct (N.eqb t' t); auto. Qed.
+Lemma put_ext (g1 g2 : tid -> option data) t x :
+  (forall t, g1 t = g2 t) -> forall t', put g1 t x t' = put g2 t x t'.
+Proof. intros Hg t'. unfold put. destruct (N.eqb t' t); auto. Qed.
+
+Lemma touch_ext (d1 d2 : tid -> data) (g1 g2 : tid -> option data) t :
+  (forall t, d1 t = d2 t) -> (forall t, g1 t = g2 t) -> forall t', touch d1 g1 t t' = touch d2 g2 t t'.
+Proof. intros Hd Hg t'. unfold touch. rewrite (cur_ext d1 d2 g1 g2 t Hd Hg). now apply put_ext. Qed.
+
+Lemma touch_all_ext (d1 d2 : tid -> data) (g1 g2 : tid -> option data) :
+  (forall t, d1 t = d2 t) -> (forall t, g1 t = g2 t) -> forall t', touch_all d1 g1 t' = touch_all d2 g2 t'.
+Proof. intros Hd Hg t'. unfold touch_all. f_equal. now apply cur_ext. Qed.
+
+Lemma touch_list_ext (d1 d2 : tid -> data) ts : forall (g1 g2 : tid -> option data),
+  (forall t, d1 t = d2 t) -> (forall t, g1 t = g2 t) -> forall t', touch_list d1 g1 ts t' = touch_list d2 g2 ts t'.
+Proof.
+  induction ts as [|t ts IH]; intros g1 g2 Hd Hg; cbn; auto.
+  apply IH; auto. now apply touch_ext.
+Qed.
+
+Lemma put_list_ext l : forall (g1 g2 : tid -> option data),
+  (forall t, g1 t = g2 t) -> forall t', put_list g1 l t' = put_list g2 l t'.
+Proof.
+  induction l as [|[t x] l IH]; intros g1 g2 Hg; cbn; auto.
+  apply IH. now apply put_ext.
+Qed.
 
 Lemma begin_tx_eq a b : sess_eq a b -> sess_eq (begin_tx a) (begin_tx b).
 Proof.
-  intros (Hs & Ht & Hi & Ha). unfold begin_tx. rewrite <- Ht.
+  intros (Hs & Ht & Hi & Ha & Hr). unfold begin_tx. rewrite <- Ht.
   destruct (tx a) eqn:E; repeat split; cbn; auto; congruence.
 Qed.
 
@@ -101,7 +166,7 @@ Lemma close_ext (d1 d2 : tid -> data) (a b : sess) autoc :
   (forall t, fst (close d1 a autoc) t = fst (close d2 b autoc) t) /\
   sess_eq (snd (close d1 a autoc)) (snd (close d2 b autoc)).
 Proof.
-  intros Hd (Hs & Ht & Hi & Ha). unfold close. rewrite <- Ht, <- Hi.
+  intros Hd (Hs & Ht & Hi & Ha & Hr). unfold close. rewrite <- Ht, <- Hi.
   destruct (tx a) eqn:Et; cbn; [|repeat split; auto; congruence].
   destruct (ign a) eqn:Ei; cbn; [repeat split; auto; congruence|].
   destruct autoc; cbn; [|repeat split; auto; congruence].
@@ -113,109 +178,129 @@ Lemma close_ic_ext (d1 d2 : tid -> data) (a b : sess) :
   (forall t, fst (close_ic d1 a) t = fst (close_ic d2 b) t) /\
   sess_eq (snd (close_ic d1 a)) (snd (close_ic d2 b)).
 Proof.
-  intros Hd (Hs & Ht & Hi & Ha). unfold close_ic. rewrite <- Ht.
+  intros Hd (Hs & Ht & Hi & Ha & Hr). unfold close_ic. rewrite <- Ht.
   destruct (tx a) eqn:Et; cbn; [|repeat split; auto; congruence].
   split; [intros t; unfold publish; now apply cur_ext|repeat split; cbn; auto; congruence].
 Qed.
+
+Lemma fail_sess_ext (a b : sess) : sess_eq a b -> sess_eq (fail_sess a) (fail_sess b).
+Proof.
+  intros (Hs & Ht & Hi & Ha & Hr). unfold fail_sess. rewrite <- Hi, <- Ha.
+  destruct (ign a) eqn:Ei; [repeat split; auto; congruence|].
+  destruct (ac a) eqn:Ea; repeat split; cbn; auto; congruence.
+Qed.
+
+Lemma with_stg_ext (a b : sess) g1 g2 :
+  sess_eq a b -> (forall t, g1 t = g2 t) -> sess_eq (with_stg a g1) (with_stg b g2).
+Proof. intros (Hs & Ht & Hi & Ha & Hr) Hg. repeat split; cbn; auto. Qed.
+
+Section Agree.
+Variables (s s' : sid) (st1 st2 : state) (e1 e2 : sess).
+Hypothesis Hne : s' <> s.
+Hypothesis Hag : agree_but s st1 st2.
+Hypothesis He : sess_eq e1 e2.
+
+Lemma set_agree (x y : sess) d1 d2 :
+  (forall t, d1 t = d2 t) -> sess_eq x y ->
+  agree_but s (mkState d1 (set_sess (ss st1) s' x)) (mkState d2 (set_sess (ss st2) s' y)).
+Proof.
+  intros Hdd Hxy. split; cbn; auto. intros s'' Hn. unfold set_sess.
+  destruct (N.eqb s'' s'); auto. now apply Hag.
+Qed.
+
+Lemma rejected_agree g1 g2 :
+  (forall t, g1 t = g2 t) ->
+  agree_but s (fst (rejected st1 s' e1 g1)) (fst (rejected st2 s' e2 g2)) /\
+  snd (rejected st1 s' e1 g1) = snd (rejected st2 s' e2 g2).
+Proof.
+  intros Hg. split; [|reflexivity]. cbn [fst rejected]. apply set_agree; [apply Hag|].
+  apply fail_sess_ext. now apply with_stg_ext.
+Qed.
+
+Lemma closed_agree g1 g2 r :
+  (forall t, g1 t = g2 t) ->
+  agree_but s (fst (closed st1 s' e1 g1 r)) (fst (closed st2 s' e2 g2 r)) /\
+  snd (closed st1 s' e1 g1 r) = snd (closed st2 s' e2 g2 r).
+Proof.
+  intros Hg. split; [|reflexivity]. unfold closed. cbn [fst].
+  assert (Ha : ac e1 = ac e2) by apply He. rewrite Ha.
+  destruct (close_ext (db st1) (db st2) (with_stg e1 g1) (with_stg e2 g2) (ac e2)) as [H1 H2];
+    [apply Hag|now apply with_stg_ext|]. now apply set_agree.
+Qed.
+
+Lemma closed_ic_agree g1 g2 r :
+  (forall t, g1 t = g2 t) ->
+  agree_but s (fst (closed_ic st1 s' e1 g1 r)) (fst (closed_ic st2 s' e2 g2 r)) /\
+  snd (closed_ic st1 s' e1 g1 r) = snd (closed_ic st2 s' e2 g2 r).
+Proof.
+  intros Hg. split; [|reflexivity]. unfold closed_ic. cbn [fst].
+  destruct (close_ic_ext (db st1) (db st2) (with_stg e1 g1) (with_stg e2 g2)) as [H1 H2];
+    [apply Hag|now apply with_stg_ext|]. now apply set_agree.
+Qed.
+End Agree.
 
 (* a step of another session s' behaves the same in two states that agree except on s *)
 Lemma step_other_agree s st1 st2 s' q :
   s' <> s -> agree_but s st1 st2 ->
   agree_but s (fst (step st1 s' q)) (fst (step st2 s' q)) /\ snd (step st1 s' q) = snd (step st2 s' q).
 Proof.
-  intros Hne [Hd Hs].
+  intros Hne Hag. pose proof Hag as [Hd Hs].
   pose proof (begin_tx_eq _ _ (Hs s' Hne)) as Hb.
-  remember (begin_tx (ss st1 s')) as e1. remember (begin_tx (ss st2 s')) as e2.
-  destruct Hb as (Hstg & Htx & Hign & Hac).
-  assert (Hset : forall (x y : sess) d1 d2, (forall t, d1 t = d2 t) -> sess_eq x y ->
-            agree_but s (mkState d1 (set_sess (ss st1) s' x)) (mkState d2 (set_sess (ss st2) s' y))).
-  { intros x y d1 d2 Hdd Hxy. split; cbn; auto. intros s'' Hn. unfold set_sess.
-    destruct (N.eqb s'' s'); auto. }
-  assert (Htouch : forall t t', touch (db st1) (staged e1) t t' = touch (db st2) (staged e2) t t').
-  { intros t t'. unfold touch. rewrite (cur_ext _ _ _ _ t Hd Hstg). now apply put_ext. }
-  unfold step. rewrite <- Heqe1, <- Heqe2.
-  destruct q as [t|t w| | | |b| |t w|t w]; cbn zeta.
-  - (* Read *)
-    rewrite <- Hac.
-    destruct (close_ext (db st1) (db st2)
-                  (mkSess (touch (db st1) (staged e1) t) (tx e1) (ign e1) (ac e1))
-                  (mkSess (touch (db st2) (staged e2) t) (tx e2) (ign e2) (ac e1)) (ac e1) Hd) as [Hc1 Hc2].
-    { repeat split; cbn; auto. }
-    split; [apply Hset; auto|]. cbn. f_equal. now apply cur_ext.
+  unfold C17Txn.step.
+  set (e1 := begin_tx (ss st1 s')) in *. set (e2 := begin_tx (ss st2 s')) in *.
+  pose proof Hb as (Hstg & Htx & Hign & Hac & Hro). cbn zeta.
+  assert (Hcur : forall t, cur (db st1) (staged e1) t = cur (db st2) (staged e2) t).
+  { intros t. now apply cur_ext. }
+  assert (Hpub : forall t, publish (db st1) (staged e1) t = publish (db st2) (staged e2) t) by exact Hcur.
+  destruct q as [t|t w| | | |b| |t w|t w| | |ts|m].
+  - (* Read *) rewrite Hcur. apply closed_agree; auto. now apply touch_ext.
   - (* Write *)
-    rewrite <- Hac. rewrite (cur_ext _ _ _ _ t Hd Hstg).
-    destruct (apply w (cur (db st2) (staged e2) t)) as [x|].
-    + destruct (close_ext (db st1) (db st2)
-                  (mkSess (put (touch (db st1) (staged e1) t) t x) (tx e1) (ign e1) (ac e1))
-                  (mkSess (put (touch (db st2) (staged e2) t) t x) (tx e2) (ign e2) (ac e1)) (ac e1) Hd) as [Hc1 Hc2].
-      { repeat split; cbn; auto. intros t'. apply put_ext. apply Htouch. }
-      split; [apply Hset; auto|reflexivity].
-    + destruct (close_ext (db st1) (db st2)
-                  (mkSess (touch (db st1) (staged e1) t) (tx e1) (ign e1) (ac e1))
-                  (mkSess (touch (db st2) (staged e2) t) (tx e2) (ign e2) (ac e1)) (ac e1) Hd) as [Hc1 Hc2].
-      { repeat split; cbn; auto. }
-      split; [apply Hset; auto|reflexivity].
-  - (* Begin *)
-    split; [|reflexivity]. apply Hset.
-    + intros t. unfold publish. now apply cur_ext.
-    + repeat split; cbn; auto.
-  - (* Commit *)
-    split; [|reflexivity]. apply Hset.
-    + intros t. unfold publish. now apply cur_ext.
-    + repeat split; cbn; auto.
-  - (* Rollback *)
-    split; [|reflexivity]. apply Hset; auto. repeat split; cbn; auto.
+    rewrite Hro, Hcur. break.
+    + apply rejected_agree; auto. now apply touch_ext.
+    + apply closed_agree; auto. apply put_ext. now apply touch_ext.
+    + apply closed_agree; auto. now apply touch_ext.
+  - (* Begin *) split; [|reflexivity]. cbn [fst]. rewrite Hac. apply set_agree; auto. apply sess_eq_refl.
+  - (* Commit *) split; [|reflexivity]. cbn [fst]. rewrite Hac. apply set_agree; auto. repeat split; auto.
+  - (* Rollback *) split; [|reflexivity]. cbn [fst]. rewrite Hac. apply set_agree; auto. apply sess_eq_refl.
   - (* SetAC *)
+    split; [|reflexivity]. cbn [fst].
     destruct (close_ext (db st1) (db st2)
-                  (mkSess (staged e1) (tx e1) (ign e1) b) (mkSess (staged e2) (tx e2) (ign e2) b) b Hd) as [Hc1 Hc2].
+                (mkSess (staged e1) (tx e1) (ign e1) b (ro e1)) (mkSess (staged e2) (tx e2) (ign e2) b (ro e2)) b Hd) as [Hc1 Hc2].
     { repeat split; cbn; auto. }
-    split; [apply Hset; auto|reflexivity].
-  - (* Bad *)
-    split; [|reflexivity]. apply Hset; auto.
-    rewrite <- Hign, <- Hac. destruct (ign e1) eqn:Ei; [repeat split; auto; congruence|].
-    destruct (ac e1) eqn:Ea; repeat split; cbn; auto; congruence.
+    now apply set_agree.
+  - (* Bad *) apply rejected_agree; auto.
   - (* WriteIC *)
-    rewrite (cur_ext _ _ _ _ t Hd Hstg).
-    destruct (apply w (cur (db st2) (staged e2) t)) as [x|].
-    + destruct (close_ic_ext (db st1) (db st2)
-                  (mkSess (put (touch (db st1) (staged e1) t) t x) (tx e1) (ign e1) (ac e1))
-                  (mkSess (put (touch (db st2) (staged e2) t) t x) (tx e2) (ign e2) (ac e2)) Hd) as [Hc1 Hc2].
-      { repeat split; cbn; auto. intros t'. apply put_ext. apply Htouch. }
-      split; [apply Hset; auto|reflexivity].
-    + destruct (close_ic_ext (db st1) (db st2)
-                  (mkSess (touch (db st1) (staged e1) t) (tx e1) (ign e1) (ac e1))
-                  (mkSess (touch (db st2) (staged e2) t) (tx e2) (ign e2) (ac e2)) Hd) as [Hc1 Hc2].
-      { repeat split; cbn; auto. }
-      split; [apply Hset; auto|reflexivity].
+    rewrite Hcur. break.
+    + apply closed_ic_agree; auto. apply put_ext. now apply touch_ext.
+    + apply closed_ic_agree; auto. now apply touch_ext.
   - (* WriteAll *)
-    assert (Hta : forall t', touch_all (db st1) (staged e1) t' = touch_all (db st2) (staged e2) t').
-    { intros t'. unfold touch_all. f_equal. now apply cur_ext. }
-    rewrite <- Hac. rewrite (cur_ext _ _ _ _ t Hd Hstg).
-    destruct (apply w (cur (db st2) (staged e2) t)) as [x|].
-    + destruct (close_ext (db st1) (db st2)
-                  (mkSess (put (touch_all (db st1) (staged e1)) t x) (tx e1) (ign e1) (ac e1))
-                  (mkSess (put (touch_all (db st2) (staged e2)) t x) (tx e2) (ign e2) (ac e1)) (ac e1) Hd) as [Hc1 Hc2].
-      { repeat split; cbn; auto. intros t'. apply put_ext. apply Hta. }
-      split; [apply Hset; auto|reflexivity].
-    + destruct (close_ext (db st1) (db st2)
-                  (mkSess (touch_all (db st1) (staged e1)) (tx e1) (ign e1) (ac e1))
-                  (mkSess (touch_all (db st2) (staged e2)) (tx e2) (ign e2) (ac e1)) (ac e1) Hd) as [Hc1 Hc2].
-      { repeat split; cbn; auto. }
-      split; [apply Hset; auto|reflexivity].
+    rewrite Hro, Hcur. break.
+    + apply rejected_agree; auto. now apply touch_ext.
+    + apply closed_agree; auto. apply put_ext. now apply touch_all_ext.
+    + apply closed_agree; auto. now apply touch_all_ext.
+  - (* BeginRO *) split; [|reflexivity]. cbn [fst]. rewrite Hac. apply set_agree; auto. apply sess_eq_refl.
+  - (* Savepoint *) apply rejected_agree; auto.
+  - (* Ddl *) apply closed_ic_agree; auto. now apply touch_list_ext.
+  - (* Multi *)
+    rewrite Hro. rewrite (map_ext _ _ Hcur). break.
+    + apply rejected_agree; auto. now apply touch_list_ext.
+    + apply closed_agree; auto. now apply touch_list_ext.
+    + apply closed_agree; auto. apply put_list_ext. now apply touch_list_ext.
+    + apply closed_agree; auto. now apply touch_list_ext.
 Qed.
 
 (* the results seen by sessions other than s *)
-Fixpoint others (s : sid) (h : list (sid * stmt wop)) (rs : list (result data)) : list (result data) :=
+Fixpoint others (s : sid) (h : list (sid * stmt)) (rs : list (result data)) : list (result data) :=
   match h, rs with
   | (s', _) :: h', r :: rs' => if N.eqb s' s then others s h' rs' else r :: others s h' rs'
   | _, _ => []
   end.
 
-Definition without (s : sid) (h : list (sid * stmt wop)) : list (sid * stmt wop) :=
+Definition without (s : sid) (h : list (sid * stmt)) : list (sid * stmt) :=
   filter (fun e => negb (N.eqb (fst e) s)) h.
 
 (* every statement of s in h is quiet *)
-Definition quiet_in (s : sid) (h : list (sid * stmt wop)) : Prop :=
+Definition quiet_in (s : sid) (h : list (sid * stmt)) : Prop :=
   forall e, In e h -> fst e = s -> quiet (snd e) = true.
 
 Lemma run_cons st s q h :
@@ -249,10 +334,7 @@ Proof.
     + cbn [negb]. apply N.eqb_neq in Es.
       destruct (step_other_agree s st1 st2 s' q Es Hag) as [Hag' Hr].
       assert (Hh' : holding (ss (fst (step st1 s' q)) s)).
-      { replace (ss (fst (step st1 s' q)) s) with (ss st1 s); auto.
-        unfold step. destruct q; cbn;
-          repeat match goal with |- context [let '(_, _) := ?x in _] => destruct x end; cbn;
-          (rewrite set_sess_other; [reflexivity|congruence]). }
+      { rewrite step_other_sess; auto. }
       specialize (IH (fst (step st1 s' q)) (fst (step st2 s' q)) Hh' Hq' Hag').
       rewrite run_cons. fold (without s h).
       destruct (run (fst (step st1 s' q)) h) as [st1' rs1] eqn:E1.
@@ -268,50 +350,68 @@ Proof. split; auto. intros. apply sess_eq_refl. Qed.
 (* 3. ROLLBACK: BEGIN; (own reads/writes/failed statements interleaved with anything the other sessions
       do); ROLLBACK  leaves the database and every other session exactly as if the session had issued
       nothing between BEGIN and ROLLBACK, the others saw the same results, and the session itself is
-      back to reading committed data.                                                                 *)
+      back to reading committed data.  The same for START TRANSACTION READ ONLY.                      *)
 
-Lemma holding_after_begin st s : holding (ss (fst (step st s Begin)) s).
-Proof. cbn. rewrite set_sess_same. split; cbn; auto. Qed.
+Definition is_begin (q : stmt) : bool := match q with Begin | BeginRO => true | _ => false end.
 
-Theorem rollback_restores st s h :
-  quiet_in s h ->
-  let st0 := fst (step st s Begin) in
+Lemma holding_after_begin st s b : is_begin b = true -> holding (ss (fst (step st s b)) s).
+Proof. intros Hb. destruct b; try discriminate; cbn; rewrite set_sess_same; left; reflexivity. Qed.
+
+(* the situation in which rollback_restores is used below: s holds, issues quiet statements, rolls back *)
+Lemma rollback_after_holding st0 s h :
+  holding (ss st0 s) -> quiet_in s h ->
   let '(st1, rs1) := run st0 h in
   let st2 := fst (step st1 s Rollback) in
   let '(stR, rsR) := run st0 (without s h) in
   (forall t, db st2 t = db stR t) /\
   (forall s', s' <> s -> sess_eq (ss st2 s') (ss stR s')) /\
   others s h rs1 = rsR /\
-  (forall t, view st2 s t = db st2 t) /\ tx (ss st2 s) = false /\ ign (ss st2 s) = false.
+  (forall t, view st2 s t = db st2 t) /\ tx (ss st2 s) = false /\ ign (ss st2 s) = false /\ ro (ss st2 s) = false.
 Proof.
-  intros Hq. cbn zeta.
-  pose proof (noninterference s h _ _ (holding_after_begin st s) Hq (agree_but_refl s _)) as H.
-  destruct (run (fst (step st s Begin)) h) as [st1 rs1].
-  destruct (run (fst (step st s Begin)) (without s h)) as [stR rsR].
-  destruct H as ([Hd Hs] & Hh & Ho).
+  intros Hh Hq.
+  pose proof (noninterference s h _ _ Hh Hq (agree_but_refl s _)) as H.
+  destruct (run st0 h) as [st1 rs1].
+  destruct (run st0 (without s h)) as [stR rsR].
+  destruct H as ([Hd Hs] & Hh' & Ho). cbn zeta.
   split; [exact Hd|]. split.
-  { intros s' Hn. cbn. rewrite set_sess_other by auto. now apply Hs. }
+  { intros s' Hn. rewrite step_other_sess by auto. now apply Hs. }
   split; [exact Ho|]. split.
   { intros t. unfold view. cbn. rewrite set_sess_same. reflexivity. }
   cbn. rewrite set_sess_same. cbn. auto.
 Qed.
 
+Theorem rollback_restores st s b h :
+  is_begin b = true -> quiet_in s h ->
+  let st0 := fst (step st s b) in
+  let '(st1, rs1) := run st0 h in
+  let st2 := fst (step st1 s Rollback) in
+  let '(stR, rsR) := run st0 (without s h) in
+  (forall t, db st2 t = db stR t) /\
+  (forall s', s' <> s -> sess_eq (ss st2 s') (ss stR s')) /\
+  others s h rs1 = rsR /\
+  (forall t, view st2 s t = db st2 t) /\ tx (ss st2 s) = false /\ ign (ss st2 s) = false /\ ro (ss st2 s) = false.
+Proof.
+  intros Hb Hq. cbn zeta. apply rollback_after_holding; auto. now apply holding_after_begin.
+Qed.
+
+Lemma without_own s (qs : list stmt) : without s (map (fun q => (s, q)) qs) = [].
+Proof. induction qs as [|q qs IH]; cbn; auto. rewrite N.eqb_refl. cbn. apply IH. Qed.
+
+Lemma quiet_in_own s (qs : list stmt) :
+  (forall q, In q qs -> quiet q = true) -> quiet_in s (map (fun q => (s, q)) qs).
+Proof. intros Hq e He _. apply in_map_iff in He. destruct He as (q & <- & Hin). now apply Hq. Qed.
+
 (* with no other session active: the database after BEGIN; own statements; ROLLBACK is the one after BEGIN *)
-Corollary rollback_restores_alone st s (qs : list (stmt wop)) :
-  (forall q, In q qs -> quiet q = true) ->
-  let st0 := fst (step st s Begin) in
+Corollary rollback_restores_alone st s b (qs : list stmt) :
+  is_begin b = true -> (forall q, In q qs -> quiet q = true) ->
+  let st0 := fst (step st s b) in
   let st2 := fst (step (fst (run st0 (map (fun q => (s, q)) qs))) s Rollback) in
   forall t, db st2 t = db st0 t /\ view st2 s t = db st0 t.
 Proof.
-  intros Hq. cbn zeta. intros t.
-  pose proof (rollback_restores st s (map (fun q => (s, q)) qs)) as H.
-  assert (Hqi : quiet_in s (map (fun q => (s, q)) qs)).
-  { intros e He _. apply in_map_iff in He. destruct He as (q & <- & Hin). now apply Hq. }
-  specialize (H Hqi). cbn zeta in H.
-  assert (Hw : without s (map (fun q => (s, q)) qs) = []).
-  { clear. induction qs as [|q qs IH]; cbn; auto. rewrite N.eqb_refl. cbn. apply IH. }
-  rewrite Hw in H. cbn [C17Txn.run] in H.
-  destruct (run (fst (step st s Begin)) (map (fun q => (s, q)) qs)) as [st1 rs1].
+  intros Hb Hq. cbn zeta. intros t.
+  pose proof (rollback_restores st s b (map (fun q => (s, q)) qs) Hb (quiet_in_own s qs Hq)) as H.
+  cbn zeta in H. rewrite without_own in H. cbn [C17Txn.run] in H.
+  destruct (run (fst (step st s b)) (map (fun q => (s, q)) qs)) as [st1 rs1].
   destruct H as (H1 & _ & _ & H4 & _). cbn [fst]. split; [apply H1|]. rewrite H4. apply H1.
 Qed.
 
@@ -345,31 +445,34 @@ Theorem commit_publishes st s :
   (forall t, staged se t = None -> db st' t = db st t) /\
   (forall t, db st' t = view st s t) /\
   (forall s' t, s' <> s -> staged (begin_tx (ss st s')) t = None -> view st' s' t = view st s t) /\
-  tx (ss st' s) = false /\ ign (ss st' s) = false.
+  tx (ss st' s) = false /\ ign (ss st' s) = false /\ ro (ss st' s) = false.
 Proof.
   cbn zeta. repeat split.
   - intros t x H. cbn. unfold publish, cur. now rewrite H.
   - intros t H. cbn. unfold publish, cur. now rewrite H.
-  - intros s' t Hn H. unfold view. cbn [step fst ss db]. rewrite set_sess_other by auto.
+  - intros s' t Hn H. unfold view. cbn [C17Txn.step fst ss db]. rewrite set_sess_other by auto.
     unfold cur at 1. rewrite H. reflexivity.
+  - cbn. now rewrite set_sess_same.
   - cbn. now rewrite set_sess_same.
   - cbn. now rewrite set_sess_same.
 Qed.
 
-(* what a write leaves in the session's own view (any mode): the operation applied to what it saw *)
+(* what a write leaves in the session's own view: the operation applied to what it saw *)
 Theorem write_updates_own_view st s t w :
-  holding (ss st s) ->
+  holding (ss st s) -> ro (begin_tx (ss st s)) = false ->
   let st' := fst (step st s (Write t w)) in
   view st' s t = match apply w (view st s t) with Some x => x | None => view st s t end /\
   (forall t', t' <> t -> view st' s t' = view st s t').
 Proof.
-  intros [Htx Hm]. cbn zeta. unfold view, step, begin_tx. rewrite Htx.
-  assert (Hc : forall g, close (db st) (mkSess g (tx (ss st s)) (ign (ss st s)) (ac (ss st s))) (ac (ss st s))
-               = (db st, mkSess g (tx (ss st s)) (ign (ss st s)) (ac (ss st s)))).
-  { intros g. unfold close. cbn. rewrite Htx. cbn. destruct (ign (ss st s)); auto.
-    destruct Hm as [Hm|Hm]; [discriminate|]. rewrite Hm. reflexivity. }
-  destruct (apply w (cur (db st) (staged (ss st s)) t)) as [x|] eqn:Ea; cbn -[touch put cur close];
-    rewrite Hc; cbn -[touch put cur]; rewrite set_sess_same; cbn -[touch put cur]; rewrite Htx; cbn -[touch put cur].
+  intros Hh Hro. cbn zeta. unfold view at 2 3 5. unfold C17Txn.step. set (se := begin_tx (ss st s)) in *. cbn zeta.
+  assert (Hse : holding se) by now apply holding_begin_tx.
+  assert (Hc : forall g r, closed st s se g r = (mkState (db st) (set_sess (ss st) s (with_stg se g)), r)).
+  { intros g r. unfold closed. rewrite close_holding; auto. }
+  assert (Hb : forall g, begin_tx (with_stg se g) = with_stg se g).
+  { intros g. unfold begin_tx. cbn. unfold se. now rewrite begin_tx_tx. }
+  rewrite Hro.
+  destruct (apply w (cur (db st) (staged se) t)) as [x|] eqn:Ea; rewrite Hc; unfold view; cbn [fst db ss];
+    rewrite set_sess_same, Hb; cbn [staged with_stg].
   - split.
     + unfold cur at 1. now rewrite put_same.
     + intros t' Hn. unfold cur at 1, touch. rewrite !put_other by auto. reflexivity.
@@ -383,8 +486,21 @@ Qed.
 
 Definition idle (se : sess) : Prop := tx se = false /\ ign se = false /\ ac se = true.
 
-Lemma close_auto (d : tid -> data) g :
-  close d (mkSess g true false true) true = (publish d g, mkSess g false false true).
+Definition idle0 : sess := mkSess no_tables true false true false.
+
+Lemma begin_tx_idle (se : sess) : idle se -> begin_tx se = idle0.
+Proof. intros (Htx & Hi & Ha). unfold begin_tx, idle0. now rewrite Htx, Hi, Ha. Qed.
+
+Lemma closed_idle st s g r :
+  closed st s idle0 g r = (mkState (publish (db st) g) (set_sess (ss st) s (mkSess g false false true false)), r).
+Proof. reflexivity. Qed.
+
+Lemma closed_ic_idle st s g r :
+  closed_ic st s idle0 g r = (mkState (publish (db st) g) (set_sess (ss st) s (mkSess g false false true false)), r).
+Proof. reflexivity. Qed.
+
+Lemma rejected_idle st s g :
+  rejected st s idle0 g = (mkState (db st) (set_sess (ss st) s (mkSess g false false true false)), RErr).
 Proof. reflexivity. Qed.
 
 Theorem autocommit_each_statement st s t w :
@@ -395,28 +511,228 @@ Theorem autocommit_each_statement st s t w :
   snd (step st s (Write t w)) = match apply w (db st t) with Some _ => ROk | None => RErr end /\
   idle (ss st' s) /\ (forall s', s' <> s -> ss st' s' = ss st s').
 Proof.
-  intros (Htx & Hi & Ha). cbn zeta. unfold step, begin_tx. rewrite Htx, Hi, Ha. cbn [staged tx ign ac].
-  change (cur (db st) no_tables t) with (db st t).
-  destruct (apply w (db st t)) as [x|] eqn:Ea; rewrite close_auto; cbn [fst snd db ss].
-  - split; [unfold publish, cur; now rewrite put_same|].
-    split; [intros t' Hn; unfold publish, cur, touch; rewrite !put_other by auto; reflexivity|].
-    split; [reflexivity|]. split; [rewrite set_sess_same; repeat split|].
-    intros s' Hn. now apply set_sess_other.
-  - split; [unfold publish, cur, touch; now rewrite put_same|].
-    split; [intros t' Hn; unfold publish, cur, touch; rewrite !put_other by auto; reflexivity|].
-    split; [reflexivity|]. split; [rewrite set_sess_same; repeat split|].
-    intros s' Hn. now apply set_sess_other.
+  intros Hid. cbn zeta. split; [|split; [|split; [|split; [|intros; now apply step_other_sess]]]];
+  unfold C17Txn.step; rewrite (begin_tx_idle _ Hid); cbn zeta; cbn [ro idle0 staged];
+  change (cur (db st) no_tables t) with (db st t);
+  destruct (apply w (db st t)) as [x|] eqn:Ea; rewrite closed_idle; cbn [fst snd db ss]; auto.
+  - unfold publish, cur. now rewrite put_same.
+  - unfold publish, cur, touch. now rewrite put_same.
+  - intros t' Hn. unfold publish, cur, touch. rewrite !put_other by auto. reflexivity.
+  - intros t' Hn. unfold publish, cur, touch. rewrite !put_other by auto. reflexivity.
+  - rewrite set_sess_same. repeat split.
+  - rewrite set_sess_same. repeat split.
 Qed.
 
 (* ------------------------------------------------------------------------------------------------ *)
-(* 7. Non-overlapping transactions: the machine equals the serial reference, results included.          *)
+(* 7. Statements executed directly on a database vs. through the session staging.                      *)
+
+Notation apply_rw := (apply_rw apply mtabs mwrites mexec).
+Notation apply_rws := (apply_rws apply mtabs mwrites mexec).
+Notation apply_ic := (apply_ic apply).
+Notation apply_block := (apply_block apply mtabs mwrites mexec).
+Notation serial := (serial apply mtabs mwrites mexec).
+
+(* the session's staging over the database d shows the contents sd *)
+Definition tracks (d : tid -> data) (stg : tid -> option data) (sd : tid -> data) : Prop :=
+  forall t, cur d stg t = sd t.
+
+Lemma tracks_put d g sd t x : tracks d g sd -> tracks d (put g t x) (upd sd t x).
+Proof. intros H t'. unfold cur, put, upd. destruct (N.eqb t' t); auto. apply H. Qed.
+
+Lemma tracks_touch d g sd t : tracks d g sd -> tracks d (touch d g t) sd.
+Proof.
+  intros H t'. unfold touch, cur at 1, put. destruct (N.eqb t' t) eqn:E; [|apply H].
+  apply N.eqb_eq in E. subst. apply H.
+Qed.
+
+Lemma tracks_touch_all d g sd : tracks d g sd -> tracks d (touch_all d g) sd.
+Proof. intros H t'. unfold touch_all, cur at 1. apply H. Qed.
+
+Lemma tracks_touch_list d ts : forall g sd, tracks d g sd -> tracks d (touch_list d g ts) sd.
+Proof. induction ts as [|t ts IH]; intros g sd H; cbn; auto. apply IH. now apply tracks_touch. Qed.
+
+Lemma tracks_put_list d l : forall g sd, tracks d g sd -> tracks d (put_list g l) (upd_list sd l).
+Proof. induction l as [|[t x] l IH]; intros g sd H; cbn; auto. apply IH. now apply tracks_put. Qed.
+
+(* a body statement: the session entries afterwards show what the statement does to the contents it saw, and the
+   result is the one of running it directly on those contents *)
+Lemma rw_shape st s q sd :
+  let se := begin_tx (ss st s) in
+  tracks (db st) (staged se) sd ->
+  exists g, tracks (db st) g (fst (apply_rw (ro se) sd q)) /\
+    (step st s (stmt_of q) = closed st s se g (snd (apply_rw (ro se) sd q)) \/
+     step st s (stmt_of q) = rejected st s se g /\ snd (apply_rw (ro se) sd q) = RErr /\
+       fst (apply_rw (ro se) sd q) = sd).
+Proof.
+  cbn zeta. intros Htr. unfold C17Txn.step. set (se := begin_tx (ss st s)) in *. cbn zeta.
+  destruct q as [t|t w|t w|m| |]; cbn [stmt_of C17Txn.apply_rw].
+  - (* read *) exists (touch (db st) (staged se) t). split; [now apply tracks_touch|]. left. now rewrite (Htr t).
+  - (* write *)
+    rewrite (Htr t). destruct (ro se).
+    + exists (touch (db st) (staged se) t). split; [now apply tracks_touch|]. right. auto.
+    + destruct (apply w (sd t)) as [x|].
+      * eexists. split; [apply tracks_put; apply tracks_touch; eassumption|]. left. reflexivity.
+      * eexists. split; [apply tracks_touch; eassumption|]. left. reflexivity.
+  - (* write that registers every table *)
+    rewrite (Htr t). destruct (ro se).
+    + exists (touch (db st) (staged se) t). split; [now apply tracks_touch|]. right. auto.
+    + destruct (apply w (sd t)) as [x|].
+      * eexists. split; [apply tracks_put; apply tracks_touch_all; eassumption|]. left. reflexivity.
+      * eexists. split; [apply tracks_touch_all; eassumption|]. left. reflexivity.
+  - (* several tables *)
+    rewrite (map_ext _ _ Htr). destruct (ro se && mwrites m).
+    + eexists. split; [apply tracks_touch_list; eassumption|]. right. auto.
+    + destruct (mexec m (map sd (mtabs m))) as [|l|x].
+      * eexists. split; [apply tracks_touch_list; eassumption|]. left. reflexivity.
+      * eexists. split; [apply tracks_put_list; apply tracks_touch_list; eassumption|]. left. reflexivity.
+      * eexists. split; [apply tracks_touch_list; eassumption|]. left. reflexivity.
+  - exists (staged se). split; [exact Htr|]. right. auto.
+  - exists (staged se). split; [exact Htr|]. right. auto.
+Qed.
+
+(* an implicit-commit statement *)
+Lemma ic_shape st s i sd :
+  let se := begin_tx (ss st s) in
+  tracks (db st) (staged se) sd ->
+  exists g, tracks (db st) g (fst (apply_ic sd i)) /\
+    step st s (stmt_of_ic i) = closed_ic st s se g (snd (apply_ic sd i)).
+Proof.
+  cbn zeta. intros Htr. unfold C17Txn.step. set (se := begin_tx (ss st s)) in *. cbn zeta.
+  destruct i as [t w|ts]; cbn [stmt_of_ic C17Txn.apply_ic].
+  - rewrite (Htr t). destruct (apply w (sd t)) as [x|].
+    + eexists. split; [apply tracks_put; apply tracks_touch; eassumption|]. reflexivity.
+    + eexists. split; [apply tracks_touch; eassumption|]. reflexivity.
+  - eexists. split; [apply tracks_touch_list; eassumption|]. reflexivity.
+Qed.
+
+Lemma closed_ic_publishes (st : state) s (se : sess) g r :
+  tx se = true ->
+  closed_ic st s se g r = (mkState (publish (db st) g) (set_sess (ss st) s (mkSess g false (ign se) (ac se) false)), r).
+Proof. intros Htx. unfold closed_ic, close_ic. cbn. rewrite Htx. reflexivity. Qed.
+
+(* ------------------------------------------------------------------------------------------------ *)
+(* 8. A failed SAVEPOINT / ROLLBACK TO / RELEASE statement changes nothing: not the database, not the other
+      sessions, not the transaction state of the session, not what the session reads next.  The premise
+      excludes only session records that cannot exist between two statements (an autocommit transaction
+      left open).                                                                                     *)
+
+Theorem savepoint_changes_nothing st s :
+  tx (ss st s) = false \/ holding (ss st s) ->
+  let st' := fst (step st s Savepoint) in
+  snd (step st s Savepoint) = RErr /\
+  (forall t, db st' t = db st t) /\ (forall s', s' <> s -> ss st' s' = ss st s') /\
+  (forall t, view st' s t = view st s t) /\
+  ign (ss st' s) = ign (ss st s) /\ ac (ss st' s) = ac (ss st s) /\
+  ro (begin_tx (ss st' s)) = ro (begin_tx (ss st s)) /\
+  (holding (ss st s) -> sess_eq (ss st' s) (begin_tx (ss st s))).
+Proof.
+  intros Hwf. cbn zeta. split; [reflexivity|]. split; [reflexivity|].
+  split; [intros; now apply step_other_sess|].
+  cbn [C17Txn.step fst rejected ss db]. rewrite set_sess_same. unfold view. cbn [ss db].
+  rewrite set_sess_same. set (se := begin_tx (ss st s)).
+  assert (Hi : ign se = ign (ss st s)) by apply begin_tx_ign.
+  assert (Ha : ac se = ac (ss st s)) by apply begin_tx_ac.
+  assert (Ht : tx se = true) by apply begin_tx_tx.
+  assert (Hb : forall g, begin_tx (with_stg se g) = with_stg se g).
+  { intros g. unfold begin_tx. cbn [with_stg tx]. now rewrite Ht. }
+  unfold fail_sess. cbn [with_stg ign ac staged]. rewrite Hi, Ha.
+  destruct (ign (ss st s)) eqn:Ei; [|destruct (ac (ss st s)) eqn:Eac].
+  - fold (with_stg se (staged se)). rewrite Hb. cbn [with_stg staged ign ac ro]. repeat split; auto; congruence.
+  - (* autocommit: the implicit transaction is dropped *)
+    destruct Hwf as [Hwf|[Hwf|Hwf]]; try congruence.
+    assert (Hse : se = mkSess no_tables true false true false).
+    { unfold se, begin_tx. rewrite Hwf, Ei, Eac. reflexivity. }
+    rewrite Hse. cbn. repeat split; auto; try congruence; exfalso; match goal with X : holding _ |- _ => destruct X; congruence end.
+  - fold (with_stg se (staged se)). rewrite Hb. cbn [with_stg staged ign ac ro]. repeat split; auto; congruence.
+Qed.
+
+(* ------------------------------------------------------------------------------------------------ *)
+(* 9. DDL with an implicit commit inside an open transaction: everything the transaction did so far becomes
+      the database content (other sessions without a copy of their own see it), and whatever quiet statements
+      follow, a later ROLLBACK takes the database back to the state right after the DDL statement - not
+      to the one before the transaction started.                                                      *)
+
+Lemma implicit_commit_publishes st s i :
+  let st1 := fst (step st s (stmt_of_ic i)) in
+  (forall t, db st1 t = fst (apply_ic (view st s) i) t) /\
+  tx (ss st1 s) = false /\ ign (ss st1 s) = ign (ss st s) /\ ac (ss st1 s) = ac (ss st s) /\
+  ro (ss st1 s) = false /\
+  (forall s', s' <> s -> ss st1 s' = ss st s').
+Proof.
+  cbn zeta.
+  destruct (ic_shape st s i (view st s)) as (g & Hg & Hs); [intros t; reflexivity|].
+  rewrite Hs, closed_ic_publishes by apply begin_tx_tx. cbn [fst db ss]. rewrite set_sess_same. cbn.
+  rewrite begin_tx_ign, begin_tx_ac. repeat split; auto. intros; now apply set_sess_other.
+Qed.
+
+Theorem ddl_commits_pending_work st s ts h :
+  holding (ss st s) -> quiet_in s h ->
+  let st1 := fst (step st s (Ddl ts)) in
+  (* published *)
+  (forall t, db st1 t = view st s t) /\
+  (forall s' t, s' <> s -> staged (begin_tx (ss st s')) t = None -> view st1 s' t = view st s t) /\
+  (* a later ROLLBACK does not undo it *)
+  let '(st2, rs2) := run st1 h in
+  let st3 := fst (step st2 s Rollback) in
+  let '(stR, rsR) := run st1 (without s h) in
+  (forall t, db st3 t = db stR t) /\ (forall s', s' <> s -> sess_eq (ss st3 s') (ss stR s')) /\ others s h rs2 = rsR.
+Proof.
+  intros Hh Hq. cbn zeta.
+  destruct (implicit_commit_publishes st s (IDdl ts)) as (P1 & P2 & P3 & P4 & P5 & P6). cbn [stmt_of_ic] in *.
+  split; [exact P1|]. split.
+  { intros s' t Hn Hnone. unfold view at 1. rewrite P6 by auto. unfold cur. rewrite Hnone. apply P1. }
+  assert (Hh1 : holding (ss (fst (step st s (Ddl ts))) s)).
+  { unfold holding. now rewrite P3, P4. }
+  pose proof (rollback_after_holding _ s h Hh1 Hq) as H.
+  destruct (run (fst (step st s (Ddl ts))) h) as [st2 rs2].
+  destruct (run (fst (step st s (Ddl ts))) (without s h)) as [stR rsR].
+  cbn zeta in H. destruct H as (H1 & H2 & H3 & _). auto.
+Qed.
+
+(* alone: the database after DDL; own statements; ROLLBACK is the one right after the DDL statement *)
+Corollary ddl_then_rollback_alone st s ts (qs : list stmt) :
+  holding (ss st s) -> (forall q, In q qs -> quiet q = true) ->
+  let st1 := fst (step st s (Ddl ts)) in
+  let st3 := fst (step (fst (run st1 (map (fun q => (s, q)) qs))) s Rollback) in
+  forall t, db st3 t = view st s t.
+Proof.
+  intros Hh Hq. cbn zeta. intros t.
+  pose proof (ddl_commits_pending_work st s ts (map (fun q => (s, q)) qs) Hh (quiet_in_own s qs Hq)) as H.
+  cbn zeta in H. destruct H as (H1 & _ & H). rewrite without_own in H. cbn [C17Txn.run] in H.
+  destruct (run (fst (step st s (Ddl ts))) (map (fun q => (s, q)) qs)) as [st2 rs2].
+  destruct H as (H3 & _). cbn [fst]. rewrite H3. apply H1.
+Qed.
+
+(* ------------------------------------------------------------------------------------------------ *)
+(* 10. READ ONLY ends with the transaction: after COMMIT / ROLLBACK (of any transaction, in any state) the
+       session has no transaction, the next one starts READ WRITE, and its writes are executed.        *)
+
+Lemma write_without_tx st s t w :
+  tx (ss st s) = false ->
+  snd (step st s (Write t w)) = match apply w (db st t) with Some _ => ROk | None => RErr end.
+Proof.
+  intros H. unfold C17Txn.step, begin_tx. rewrite H. cbn zeta. cbn [ro staged].
+  change (cur (db st) no_tables t) with (db st t). destruct (apply w (db st t)); reflexivity.
+Qed.
+
+Theorem read_only_ends st s e :
+  e = Commit \/ e = Rollback ->
+  let st' := fst (step st s e) in
+  tx (ss st' s) = false /\ ign (ss st' s) = false /\ ro (begin_tx (ss st' s)) = false /\
+  forall t w, snd (step st' s (Write t w)) = match apply w (db st' t) with Some _ => ROk | None => RErr end.
+Proof.
+  intros He. cbn zeta.
+  assert (H : tx (ss (fst (step st s e)) s) = false /\ ign (ss (fst (step st s e)) s) = false).
+  { destruct He as [->| ->]; cbn; rewrite set_sess_same; auto. }
+  destruct H as [H1 H2]. split; [exact H1|]. split; [exact H2|]. split.
+  - unfold begin_tx. rewrite H1. reflexivity.
+  - intros t w. now apply write_without_tx.
+Qed.
+
+(* ------------------------------------------------------------------------------------------------ *)
+(* 11. Non-overlapping transactions: the machine equals the serial reference, results included.          *)
 
 Definition all_idle (st : state) : Prop := forall s, idle (ss st s).
-
-Notation apply_rw := (apply_rw apply).
-Notation apply_rws := (apply_rws apply).
-Notation apply_block := (apply_block apply).
-Notation serial := (serial apply).
 
 Lemma run_app st h1 h2 :
   run st (h1 ++ h2) =
@@ -427,88 +743,154 @@ Proof.
   - rewrite <- app_comm_cons, !run_cons. rewrite IH. cbn. reflexivity.
 Qed.
 
+Lemma run_one st s q : run st [(s, q)] = (fst (step st s q), [snd (step st s q)]).
+Proof. rewrite run_cons. reflexivity. Qed.
+
 (* one autocommit statement *)
 Lemma auto_step st s q :
   idle (ss st s) ->
   let st' := fst (step st s (stmt_of q)) in
-  (forall t, db st' t = fst (apply_rw (db st) q) t) /\
-  snd (step st s (stmt_of q)) = snd (apply_rw (db st) q) /\
-  idle (ss st' s) /\ (forall s', s' <> s -> ss st' s' = ss st s').
+  (forall t, db st' t = fst (apply_rw false (db st) q) t) /\
+  snd (step st s (stmt_of q)) = snd (apply_rw false (db st) q) /\
+  idle (ss st' s).
 Proof.
-  intros Hid. destruct q as [t|t w].
-  - (* read *)
-    destruct Hid as (Htx & Hi & Ha). cbn zeta. cbn [stmt_of]. unfold step, begin_tx. rewrite Htx, Hi, Ha.
-    cbn [staged tx ign ac]. rewrite close_auto. cbn [fst snd db ss C17Txn.apply_rw].
-    split.
-    { intros t'. unfold publish, cur, touch, put. destruct (N.eqb t' t) eqn:E; auto.
-      apply N.eqb_eq in E. now subst. }
-    split; [reflexivity|]. split; [rewrite set_sess_same; repeat split|].
-    intros s' Hn. now apply set_sess_other.
-  - pose proof (autocommit_each_statement st s t w Hid) as (H1 & H2 & H3 & H4 & H5).
-    cbn [stmt_of]. split; [|split; [|split; [exact H4|exact H5]]].
-    + intros t'. cbn [C17Txn.apply_rw]. destruct (N.eq_dec t' t) as [->|Hn].
-      * rewrite H1. destruct (apply w (db st t)); cbn; auto. unfold upd. now rewrite N.eqb_refl.
-      * rewrite (H2 t' Hn). destruct (apply w (db st t)); cbn; auto. unfold upd.
-        apply N.eqb_neq in Hn. now rewrite Hn.
-    + rewrite H3. cbn. destruct (apply w (db st t)); reflexivity.
+  intros Hid. cbn zeta.
+  destruct (rw_shape st s q (db st)) as (g & Hg & Hs).
+  { rewrite (begin_tx_idle _ Hid). intros t. reflexivity. }
+  rewrite (begin_tx_idle _ Hid) in *. cbn [ro idle0] in *.
+  destruct Hs as [Hs|(Hs & Hr & Hd)]; rewrite Hs.
+  - rewrite closed_idle. cbn [fst snd db ss]. rewrite set_sess_same. repeat split. intros t. apply Hg.
+  - rewrite rejected_idle. cbn [fst snd db ss]. rewrite set_sess_same, Hr, Hd. repeat split.
 Qed.
 
-(* inside an explicit transaction: the session's staging tracks the serial database [sd] *)
-Definition tracks (d0 : tid -> data) (stg : tid -> option data) (sd : tid -> data) : Prop :=
-  forall t, cur d0 stg t = sd t.
+(* one implicit-commit statement of an autocommit session *)
+Lemma auto_ic_step st s i :
+  idle (ss st s) ->
+  let st' := fst (step st s (stmt_of_ic i)) in
+  (forall t, db st' t = fst (apply_ic (db st) i) t) /\
+  snd (step st s (stmt_of_ic i)) = snd (apply_ic (db st) i) /\
+  idle (ss st' s).
+Proof.
+  intros Hid. cbn zeta.
+  destruct (ic_shape st s i (db st)) as (g & Hg & Hs).
+  { rewrite (begin_tx_idle _ Hid). intros t. reflexivity. }
+  rewrite (begin_tx_idle _ Hid) in *. rewrite Hs, closed_ic_idle. cbn [fst snd db ss]. rewrite set_sess_same.
+  repeat split. intros t. apply Hg.
+Qed.
 
-Lemma body_step st s q sd :
-  tx (ss st s) = true -> ign (ss st s) = true -> tracks (db st) (staged (ss st s)) sd ->
+(* inside a transaction that the end of a statement does not commit *)
+Definition intx (st : state) (s : sid) (r : bool) (sd : tid -> data) : Prop :=
+  tx (ss st s) = true /\ holding (ss st s) /\ ro (ss st s) = r /\ tracks (db st) (staged (ss st s)) sd.
+
+Lemma begin_tx_open (se : sess) : tx se = true -> begin_tx se = se.
+Proof. intros H. unfold begin_tx. now rewrite H. Qed.
+
+Lemma body_step st s q sd r :
+  intx st s r sd ->
   let st' := fst (step st s (stmt_of q)) in
-  (forall t, db st' t = db st t) /\ tx (ss st' s) = true /\ ign (ss st' s) = true /\
-  ac (ss st' s) = ac (ss st s) /\
-  tracks (db st') (staged (ss st' s)) (fst (apply_rw sd q)) /\
-  snd (step st s (stmt_of q)) = snd (apply_rw sd q) /\
-  (forall s', s' <> s -> ss st' s' = ss st s').
+  (forall t, db st' t = db st t) /\ intx st' s r (fst (apply_rw r sd q)) /\
+  ign (ss st' s) = ign (ss st s) /\ ac (ss st' s) = ac (ss st s) /\
+  snd (step st s (stmt_of q)) = snd (apply_rw r sd q).
 Proof.
-  intros Htx Hi Htr. cbn zeta. unfold step, begin_tx. rewrite Htx.
-  assert (Hc : forall g, close (db st) (mkSess g (tx (ss st s)) (ign (ss st s)) (ac (ss st s))) (ac (ss st s))
-               = (db st, mkSess g (tx (ss st s)) (ign (ss st s)) (ac (ss st s)))).
-  { intros g. unfold close. cbn. rewrite Htx, Hi. reflexivity. }
-  destruct q as [t|t w]; cbn -[touch put cur close].
-  - rewrite Hc. cbn -[touch put cur]. rewrite set_sess_same. cbn -[touch put cur].
-    repeat split; auto.
-    + intros t'. unfold cur at 1, touch, put. destruct (N.eqb t' t) eqn:E.
-      * apply N.eqb_eq in E. subst. apply Htr.
-      * apply Htr.
-    + f_equal. apply Htr.
-    + intros. now apply set_sess_other.
-  - rewrite (Htr t).
-    destruct (apply w (sd t)) as [x|] eqn:Ea; cbn -[touch put cur close]; rewrite Hc; cbn -[touch put cur];
-      rewrite set_sess_same; cbn -[touch put cur]; repeat split; auto; try (intros; now apply set_sess_other).
-    + intros t'. unfold cur at 1, upd, put at 1. destruct (N.eqb t' t) eqn:E; auto.
-      unfold touch, put. rewrite E. apply Htr.
-    + intros t'. unfold cur at 1, touch, put. destruct (N.eqb t' t) eqn:E.
-      * apply N.eqb_eq in E. subst. apply Htr.
-      * apply Htr.
+  intros (Htx & Hh & Hro & Htr). cbn zeta.
+  destruct (rw_shape st s q sd) as (g & Hg & Hs); [now rewrite begin_tx_open|].
+  rewrite (begin_tx_open _ Htx), Hro in *.
+  assert (Hsame : forall x : state, x = mkState (db st) (set_sess (ss st) s (with_stg (ss st s) g)) ->
+            (forall t, db x t = db st t) /\ intx x s r (fst (apply_rw r sd q)) /\
+            ign (ss x s) = ign (ss st s) /\ ac (ss x s) = ac (ss st s)).
+  { intros x ->. unfold intx, holding in *. cbn [db ss]. rewrite set_sess_same. cbn [with_stg tx ign ac ro staged].
+    repeat split; auto. }
+  destruct Hs as [Hs|(Hs & Hr & Hd)]; rewrite Hs.
+  - unfold closed. rewrite close_holding; auto. cbn [fst snd].
+    destruct (Hsame _ eq_refl) as (A & B & C & D). auto.
+  - unfold rejected. rewrite fail_sess_holding; auto. cbn [fst snd].
+    destruct (Hsame _ eq_refl) as (A & B & C & D). rewrite Hr. auto.
 Qed.
 
-Lemma body_run s : forall (body : list (rw wop)) st sd,
-  tx (ss st s) = true -> ign (ss st s) = true -> tracks (db st) (staged (ss st s)) sd ->
+Lemma body_run s r : forall (body : list (rw wop mop)) st sd,
+  intx st s r sd ->
   let '(st', rs) := run st (map (fun q => (s, stmt_of q)) body) in
-  (forall t, db st' t = db st t) /\ tx (ss st' s) = true /\ ign (ss st' s) = true /\
-  ac (ss st' s) = ac (ss st s) /\
-  tracks (db st') (staged (ss st' s)) (fst (apply_rws sd body)) /\
-  rs = snd (apply_rws sd body) /\
+  (forall t, db st' t = db st t) /\ intx st' s r (fst (apply_rws r sd body)) /\
+  ign (ss st' s) = ign (ss st s) /\ ac (ss st' s) = ac (ss st s) /\
+  rs = snd (apply_rws r sd body) /\
   (forall s', s' <> s -> ss st' s' = ss st s').
 Proof.
-  induction body as [|q body IH]; intros st sd Htx Hi Htr.
-  - cbn. repeat split; auto.
+  induction body as [|q body IH]; intros st sd Hin.
+  - cbn. repeat split; auto; apply Hin.
   - cbn [map]. rewrite run_cons.
-    destruct (body_step st s q sd Htx Hi Htr) as (B1 & B2 & B3 & B4 & B5 & B6 & B7).
-    specialize (IH (fst (step st s (stmt_of q))) (fst (apply_rw sd q)) B2 B3 B5).
+    destruct (body_step st s q sd r Hin) as (B1 & B2 & B3 & B4 & B5).
+    specialize (IH (fst (step st s (stmt_of q))) (fst (apply_rw r sd q)) B2).
     destruct (run (fst (step st s (stmt_of q))) (map (fun q0 => (s, stmt_of q0)) body)) as [st' rs] eqn:E.
-    cbn [fst snd]. destruct IH as (I1 & I2 & I3 & I4 & I5 & I6 & I7).
-    cbn [C17Txn.apply_rws]. destruct (apply_rw sd q) as [d1 r1] eqn:E1. cbn [fst snd] in *.
-    destruct (apply_rws d1 body) as [d2 rs2] eqn:E2. cbn [fst snd] in *.
-    split; [intros t; now rewrite I1|]. split; [exact I2|]. split; [exact I3|]. split; [congruence|].
-    split; [exact I5|]. split; [congruence|].
-    intros s' Hn. rewrite I7 by auto. now apply B7.
+    cbn [fst snd]. destruct IH as (I1 & I2 & I3 & I4 & I5 & I6).
+    cbn [C17Txn.apply_rws]. destruct (apply_rw r sd q) as [d1 r1] eqn:E1. cbn [fst snd] in *.
+    destruct (apply_rws r d1 body) as [d2 rs2] eqn:E2. cbn [fst snd] in *.
+    split; [intros t; now rewrite I1|]. split; [exact I2|]. split; [congruence|]. split; [congruence|].
+    split; [congruence|].
+    intros s' Hn. rewrite I6 by auto. now apply step_other_sess.
+Qed.
+
+(* the opening statement of a block, from an idle session *)
+Lemma opener_step st s k :
+  idle (ss st s) ->
+  let st0 := fst (step st s (opener k)) in
+  (forall t, db st0 t = db st t) /\ intx st0 s (is_ro k) (db st) /\
+  ign (ss st0 s) = match k with KOff => false | _ => true end /\
+  ac (ss st0 s) = match k with KOff => false | _ => true end /\
+  snd (step st s (opener k)) = ROk.
+Proof.
+  intros Hid. cbn zeta. unfold intx, C17Txn.step. rewrite (begin_tx_idle _ Hid).
+  destruct k as [[|]|]; cbn [opener is_ro]; cbn -[set_sess]; rewrite !set_sess_same; cbn; unfold holding, tracks; cbn;
+    repeat split; auto.
+Qed.
+
+(* COMMIT / ROLLBACK in any state *)
+Lemma end_step st s (c : bool) :
+  let st' := fst (step st s (if c then Commit else Rollback)) in
+  (forall t, db st' t = if c then view st s t else db st t) /\
+  tx (ss st' s) = false /\ ign (ss st' s) = false /\ ac (ss st' s) = ac (ss st s) /\
+  snd (step st s (if c then Commit else Rollback)) = ROk.
+Proof.
+  cbn zeta. destruct c; cbn; rewrite set_sess_same; cbn; rewrite begin_tx_ac; repeat split; auto.
+Qed.
+
+(* SET autocommit = 1 of a session without transaction *)
+Lemma setac_on_step st s :
+  tx (ss st s) = false -> ign (ss st s) = false ->
+  let st' := fst (step st s (SetAC true)) in
+  (forall t, db st' t = db st t) /\ idle (ss st' s) /\ snd (step st s (SetAC true)) = ROk.
+Proof.
+  intros Htx Hi. cbn zeta. unfold C17Txn.step, begin_tx. rewrite Htx, Hi. cbn. rewrite set_sess_same.
+  repeat split.
+Qed.
+
+Lemma view_intx (st : state) s r sd : intx st s r sd -> forall t, view st s t = sd t.
+Proof. intros (Htx & _ & _ & Htr) t. unfold view. rewrite begin_tx_open by auto. apply Htr. Qed.
+
+Lemma view_closed (st : state) s t : tx (ss st s) = false -> view st s t = db st t.
+Proof. intros H. unfold view, begin_tx. rewrite H. reflexivity. Qed.
+
+Lemma all_idle_after (st st' : state) s :
+  all_idle st -> idle (ss st' s) -> (forall s', s' <> s -> ss st' s' = ss st s') -> all_idle st'.
+Proof. intros Hid Hs Ho s0. destruct (N.eq_dec s0 s) as [->|Hn]; [exact Hs|]. rewrite Ho by auto. apply Hid. Qed.
+
+Lemma run_other_sess h : forall st s,
+  (forall e, In e h -> fst e = s) -> forall s', s' <> s -> ss (fst (run st h)) s' = ss st s'.
+Proof.
+  induction h as [|[s0 q] h IH]; intros st s Hall s' Hn; [reflexivity|].
+  rewrite run_cons. cbn [fst]. assert (s0 = s) by (apply (Hall (s0, q)); now left). subst s0.
+  rewrite (IH _ s) by (auto; intros e He; apply Hall; now right). now apply step_other_sess.
+Qed.
+
+Lemma flatten_own (b : block wop mop) : match b with Auto s _ | AutoIC s _ | Txn s _ _ _ _ => forall e, In e (flatten b) -> fst e = s end.
+Proof.
+  destruct b as [s q|s i|s k body fin c]; cbn [flatten]; intros e He.
+  - destruct He as [<-|[]]. reflexivity.
+  - destruct He as [<-|[]]. reflexivity.
+  - destruct He as [<-|He]; [reflexivity|].
+    repeat (apply in_app_or in He; destruct He as [He|He]).
+    + apply in_map_iff in He. destruct He as (q & <- & _). reflexivity.
+    + destruct fin; [destruct He as [<-|[]]; reflexivity|destruct He].
+    + destruct He as [<-|He]; [reflexivity|]. destruct k; cbn in He; try contradiction; destruct He as [<-|[]]; reflexivity.
 Qed.
 
 Lemma block_run st b :
@@ -516,76 +898,119 @@ Lemma block_run st b :
   let '(st', rs) := run st (flatten b) in
   all_idle st' /\ (forall t, db st' t = fst (apply_block (db st) b) t) /\ rs = snd (apply_block (db st) b).
 Proof.
-  intros Hid. destruct b as [s q|s body c].
-  - cbn [flatten]. rewrite run_cons. cbn [C17Txn.run fst snd].
-    destruct (auto_step st s q (Hid s)) as (A1 & A2 & A3 & A4).
-    cbn [C17Txn.apply_block]. destruct (apply_rw (db st) q) as [d' r] eqn:E. cbn [fst snd] in *.
-    repeat split; auto; try congruence.
-    + destruct (N.eq_dec s0 s) as [->|Hn]; [apply A3|rewrite A4 by auto; apply Hid].
-    + destruct (N.eq_dec s0 s) as [->|Hn]; [apply A3|rewrite A4 by auto; apply Hid].
-    + destruct (N.eq_dec s0 s) as [->|Hn]; [apply A3|rewrite A4 by auto; apply Hid].
-  - cbn [flatten]. rewrite run_cons, run_app.
-    destruct (Hid s) as (Htx & Hi & Ha).
-    set (st0 := fst (step st s Begin)).
-    assert (D0 : forall t, db st0 t = db st t).
-    { intros t. unfold st0. cbn. unfold begin_tx. rewrite Htx. reflexivity. }
-    assert (S0 : ss st0 s = mkSess no_tables true true true).
-    { unfold st0. cbn. rewrite set_sess_same. unfold begin_tx. rewrite Htx. cbn. now rewrite Ha. }
-    assert (O0 : forall s', s' <> s -> ss st0 s' = ss st s').
-    { intros s' Hn. unfold st0. cbn. now apply set_sess_other. }
-    assert (Htr : tracks (db st0) (staged (ss st0 s)) (db st)).
-    { intros t. rewrite S0. cbn. apply D0. }
-    pose proof (body_run s body st0 (db st)) as HB.
-    rewrite S0 in HB at 1 2. specialize (HB eq_refl eq_refl Htr).
+  intros Hid. pose proof (flatten_own b) as Hown.
+  destruct b as [s q|s i|s k body fin c].
+  - cbn [flatten]. rewrite run_one.
+    destruct (auto_step st s q (Hid s)) as (A1 & A2 & A3).
+    cbn [C17Txn.apply_block]. destruct (apply_rw false (db st) q) as [d' r] eqn:E. cbn [fst snd] in *.
+    split; [|split; [exact A1|congruence]].
+    apply (all_idle_after st _ s Hid A3). intros; now apply step_other_sess.
+  - cbn [flatten]. rewrite run_one.
+    destruct (auto_ic_step st s i (Hid s)) as (A1 & A2 & A3).
+    cbn [C17Txn.apply_block]. destruct (apply_ic (db st) i) as [d' r] eqn:E. cbn [fst snd] in *.
+    split; [|split; [exact A1|congruence]].
+    apply (all_idle_after st _ s Hid A3). intros; now apply step_other_sess.
+  - (* a transaction block *)
+    assert (Hoth : forall s', s' <> s -> ss (fst (run st (flatten (Txn s k body fin c)))) s' = ss st s').
+    { intros s' Hn. now apply (run_other_sess _ st s Hown). }
+    cbn [flatten] in *. rewrite run_cons, run_app in *.
+    destruct (opener_step st s k (Hid s)) as (O1 & O2 & O3 & O4 & O5).
+    set (st0 := fst (step st s (opener k))) in *.
+    pose proof (body_run s (is_ro k) body st0 (db st) O2) as HB.
     destruct (run st0 (map (fun q => (s, stmt_of q)) body)) as [st1 rs1] eqn:E1.
-    destruct HB as (B1 & B2 & B3 & B4 & B5 & B6 & B7).
-    cbn [fst snd]. cbn [C17Txn.apply_block].
-    destruct (apply_rws (db st) body) as [sd rsS] eqn:ES. cbn [fst snd] in *.
-    rewrite S0 in B4. cbn in B4.
-    destruct c.
-    + (* COMMIT *)
-      cbn [C17Txn.run]. cbn -[C17Txn.run]. unfold begin_tx. rewrite B2.
-      repeat split; cbn.
-      * destruct (N.eq_dec s0 s) as [->|Hn]; [now rewrite set_sess_same|].
-        rewrite set_sess_other by auto. rewrite B7, O0 by auto. apply Hid.
-      * destruct (N.eq_dec s0 s) as [->|Hn]; [now rewrite set_sess_same|].
-        rewrite set_sess_other by auto. rewrite B7, O0 by auto. apply Hid.
-      * destruct (N.eq_dec s0 s) as [->|Hn]; [rewrite set_sess_same; cbn; auto|].
-        rewrite set_sess_other by auto. rewrite B7, O0 by auto. apply Hid.
-      * intros t. unfold publish. apply B5.
-      * rewrite B6. reflexivity.
-    + (* ROLLBACK *)
-      cbn [C17Txn.run]. cbn -[C17Txn.run]. unfold begin_tx. rewrite B2.
-      repeat split; cbn.
-      * destruct (N.eq_dec s0 s) as [->|Hn]; [now rewrite set_sess_same|].
-        rewrite set_sess_other by auto. rewrite B7, O0 by auto. apply Hid.
-      * destruct (N.eq_dec s0 s) as [->|Hn]; [now rewrite set_sess_same|].
-        rewrite set_sess_other by auto. rewrite B7, O0 by auto. apply Hid.
-      * destruct (N.eq_dec s0 s) as [->|Hn]; [rewrite set_sess_same; cbn; auto|].
-        rewrite set_sess_other by auto. rewrite B7, O0 by auto. apply Hid.
-      * intros t. rewrite B1. apply D0.
-      * rewrite B6. reflexivity.
+    destruct HB as (B1 & B2 & B3 & B4 & B5 & B6).
+    cbn [fst snd] in *. cbn [C17Txn.apply_block].
+    destruct (apply_rws (is_ro k) (db st) body) as [sd rsS] eqn:ES. cbn [fst snd] in *.
+    rewrite O5, B5.
+    (* the optional implicit-commit statement: afterwards the session's view is the expected content *)
+    assert (HF : exists st2 rf d2,
+        run st1 (match fin with Some i => [(s, stmt_of_ic i)] | None => [] end) = (st2, rf) /\
+        rf = match fin with Some i => [snd (apply_ic sd i)] | None => [] end /\
+        (forall t, d2 t = match fin with Some i => fst (apply_ic sd i) t | None => sd t end) /\
+        (forall t, view st2 s t = d2 t) /\
+        (forall t, db st2 t = match fin with Some _ => d2 t | None => db st t end) /\
+        ign (ss st2 s) = ign (ss st1 s) /\ ac (ss st2 s) = ac (ss st1 s)).
+    { destruct fin as [i|].
+      - rewrite run_one.
+        destruct (implicit_commit_publishes st1 s i) as (P1 & P2 & P3 & P4 & P5 & P6).
+        exists (fst (step st1 s (stmt_of_ic i))), [snd (step st1 s (stmt_of_ic i))], (fst (apply_ic sd i)).
+        destruct (ic_shape st1 s i sd) as (g & Hg & Hs).
+        { rewrite begin_tx_open by apply B2. apply B2. }
+        assert (Hv : forall t, fst (apply_ic (view st1 s) i) t = fst (apply_ic sd i) t).
+        { pose proof (view_intx _ _ _ _ B2) as Hv. intros t. destruct i as [t0 w|ts]; cbn.
+          - rewrite Hv. destruct (apply w (sd t0)); cbn; auto. unfold upd. destruct (N.eqb t t0); auto.
+          - apply Hv. }
+        split; [reflexivity|]. split; [now rewrite Hs|]. split; [auto|].
+        split; [intros t; rewrite view_closed by auto; now rewrite P1|].
+        split; [intros t; now rewrite P1|]. auto.
+      - exists st1, [], sd. cbn. split; [reflexivity|]. split; [reflexivity|]. split; [auto|].
+        split; [apply (view_intx _ _ _ _ B2)|]. split; [intros t; rewrite B1; apply O1|auto]. }
+    destruct HF as (st2 & rf & d2 & HF1 & HF2 & HF3 & HF4 & HF5 & HF6 & HF7).
+    rewrite run_app, HF1 in *. cbn [fst snd] in *. rewrite run_cons in *. cbn [fst snd] in *.
+    destruct (end_step st2 s c) as (N1 & N2 & N3 & N4 & N5).
+    set (st3 := fst (step st2 s (if c then Commit else Rollback))) in *. rewrite N5.
+    (* the database after COMMIT / ROLLBACK *)
+    assert (HD : forall t, db st3 t =
+              fst (match fin with
+                   | None => (if c then sd else db st, @nil (result data))
+                   | Some i => (fst (apply_ic sd i), [])
+                   end) t).
+    { intros t. rewrite N1. destruct fin as [i|]; cbn [fst].
+      - destruct c; [rewrite HF4|rewrite HF5]; apply HF3.
+      - destruct c; [rewrite HF4; apply HF3|apply HF5]. }
+    destruct k as [r|].
+    + (* START TRANSACTION ... *)
+      cbn [C17Txn.run fst snd] in *.
+      assert (Hidle : idle (ss st3 s)).
+      { repeat split; auto. rewrite N4, HF7, B4. apply O4. }
+      split; [apply (all_idle_after st st3 s Hid Hidle Hoth)|].
+      destruct fin as [i|]; cbn [fst] in HD; destruct (apply_ic sd _) as [d3 r3] eqn:E3 || idtac; cbn [fst snd] in *.
+      * split; [exact HD|]. subst rf. reflexivity.
+      * split; [exact HD|]. subst rf. reflexivity.
+    + (* SET autocommit = 0 ... SET autocommit = 1 *)
+      rewrite run_one in *. cbn [fst snd] in *.
+      destruct (setac_on_step st3 s N2 N3) as (S1 & S2 & S3). rewrite S3.
+      split; [apply (all_idle_after st _ s Hid S2 Hoth)|].
+      destruct fin as [i|]; cbn [fst] in HD; destruct (apply_ic sd _) as [d3 r3] eqn:E3 || idtac; cbn [fst snd] in *.
+      * split; [intros t; rewrite S1; apply HD|]. subst rf. reflexivity.
+      * split; [intros t; rewrite S1; apply HD|]. subst rf. reflexivity.
 Qed.
 
-Lemma apply_rw_ext (d1 d2 : tid -> data) q :
+Lemma upd_ext (d1 d2 : tid -> data) t x : (forall t, d1 t = d2 t) -> forall t', upd d1 t x t' = upd d2 t x t'.
+Proof. intros H t'. unfold upd. destruct (N.eqb t' t); auto. Qed.
+
+Lemma upd_list_ext l : forall (d1 d2 : tid -> data), (forall t, d1 t = d2 t) -> forall t', upd_list d1 l t' = upd_list d2 l t'.
+Proof. induction l as [|[t x] l IH]; intros d1 d2 H; cbn; auto. apply IH. now apply upd_ext. Qed.
+
+Lemma apply_rw_ext r (d1 d2 : tid -> data) q :
   (forall t, d1 t = d2 t) ->
-  (forall t, fst (apply_rw d1 q) t = fst (apply_rw d2 q) t) /\ snd (apply_rw d1 q) = snd (apply_rw d2 q).
+  (forall t, fst (apply_rw r d1 q) t = fst (apply_rw r d2 q) t) /\ snd (apply_rw r d1 q) = snd (apply_rw r d2 q).
 Proof.
-  intros H. destruct q as [t|t w]; cbn.
+  intros H. destruct q as [t|t w|t w|m| |]; cbn; auto.
   - split; auto. now rewrite H.
-  - rewrite H. destruct (apply w (d2 t)); cbn; split; auto.
-    intros t'. unfold upd. destruct (N.eqb t' t); auto.
+  - rewrite H. destruct r; [auto|]. destruct (apply w (d2 t)); cbn; split; auto. now apply upd_ext.
+  - rewrite H. destruct r; [auto|]. destruct (apply w (d2 t)); cbn; split; auto. now apply upd_ext.
+  - rewrite (map_ext _ _ H). destruct (r && mwrites m); [auto|].
+    destruct (mexec m (map d2 (mtabs m))); cbn; split; auto. now apply upd_list_ext.
 Qed.
 
-Lemma apply_rws_ext qs : forall (d1 d2 : tid -> data),
+Lemma apply_ic_ext (d1 d2 : tid -> data) i :
   (forall t, d1 t = d2 t) ->
-  (forall t, fst (apply_rws d1 qs) t = fst (apply_rws d2 qs) t) /\ snd (apply_rws d1 qs) = snd (apply_rws d2 qs).
+  (forall t, fst (apply_ic d1 i) t = fst (apply_ic d2 i) t) /\ snd (apply_ic d1 i) = snd (apply_ic d2 i).
+Proof.
+  intros H. destruct i as [t w|ts]; cbn; auto.
+  rewrite H. destruct (apply w (d2 t)); cbn; split; auto. now apply upd_ext.
+Qed.
+
+Lemma apply_rws_ext r qs : forall (d1 d2 : tid -> data),
+  (forall t, d1 t = d2 t) ->
+  (forall t, fst (apply_rws r d1 qs) t = fst (apply_rws r d2 qs) t) /\ snd (apply_rws r d1 qs) = snd (apply_rws r d2 qs).
 Proof.
   induction qs as [|q qs IH]; intros d1 d2 H; cbn; auto.
-  destruct (apply_rw_ext d1 d2 q H) as [H1 H2].
-  destruct (apply_rw d1 q) as [e1 r1]. destruct (apply_rw d2 q) as [e2 r2]. cbn in *.
+  destruct (apply_rw_ext r d1 d2 q H) as [H1 H2].
+  destruct (apply_rw r d1 q) as [e1 r1]. destruct (apply_rw r d2 q) as [e2 r2]. cbn in *.
   destruct (IH e1 e2 H1) as [H3 H4].
-  destruct (apply_rws e1 qs) as [f1 s1]. destruct (apply_rws e2 qs) as [f2 s2]. cbn in *.
+  destruct (apply_rws r e1 qs) as [f1 s1]. destruct (apply_rws r e2 qs) as [f2 s2]. cbn in *.
   split; auto. congruence.
 Qed.
 
@@ -593,11 +1018,17 @@ Lemma apply_block_ext (d1 d2 : tid -> data) b :
   (forall t, d1 t = d2 t) ->
   (forall t, fst (apply_block d1 b) t = fst (apply_block d2 b) t) /\ snd (apply_block d1 b) = snd (apply_block d2 b).
 Proof.
-  intros H. destruct b as [s q|s body c]; cbn.
-  - destruct (apply_rw_ext d1 d2 q H) as [H1 H2].
-    destruct (apply_rw d1 q), (apply_rw d2 q). cbn in *. split; auto. congruence.
-  - destruct (apply_rws_ext body d1 d2 H) as [H1 H2].
-    destruct (apply_rws d1 body), (apply_rws d2 body). cbn in *. split; [destruct c; auto|congruence].
+  intros H. destruct b as [s q|s i|s k body fin c]; cbn.
+  - destruct (apply_rw_ext false d1 d2 q H) as [H1 H2].
+    destruct (apply_rw false d1 q), (apply_rw false d2 q). cbn in *. split; auto. congruence.
+  - destruct (apply_ic_ext d1 d2 i H) as [H1 H2].
+    destruct (apply_ic d1 i), (apply_ic d2 i). cbn in *. split; auto. congruence.
+  - destruct (apply_rws_ext (is_ro k) body d1 d2 H) as [H1 H2].
+    destruct (apply_rws (is_ro k) d1 body) as [e1 r1], (apply_rws (is_ro k) d2 body) as [e2 r2]. cbn in *. subst r2.
+    destruct fin as [i|].
+    + destruct (apply_ic_ext e1 e2 i H1) as [H3 H4].
+      destruct (apply_ic e1 i), (apply_ic e2 i). cbn in *. split; auto. congruence.
+    + cbn. split; [destruct c; auto|reflexivity].
 Qed.
 
 Lemma serial_ext bs : forall (d1 d2 : tid -> data),
@@ -635,33 +1066,85 @@ Qed.
 End Proofs.
 
 (* ------------------------------------------------------------------------------------------------ *)
-(* 8. What does NOT hold: COMMIT publishes every table the session touched, so a transaction that only
-      READ a table overwrites what another session committed to it in the meantime.                    *)
+(* 12. Facts about the concrete machine of the correspondence (witnesses by computation).              *)
 From Coq Require Import ZArith.
+Open Scope Z_scope.
 
-Definition lost_update_history : list (sid * stmt cwop) :=
+Definition tabs0 : tid -> rows := fun t => if N.eqb t 0 then [(1, 10)] else if N.eqb t 1 then [(1, 1)] else [].
+
+(* COMMIT publishes every table the session touched, so a transaction that only READ a table overwrites what
+   another session committed to it in the meantime (overlapping transactions) *)
+Definition lost_update_history : list (sid * stmt cwop cmop) :=
   [ (1%N, Begin); (1%N, Read 0%N);                 (* session 1 only reads table 0 *)
-    (2%N, Write 0%N (Ins [(4%Z, 40%Z)]));          (* session 2 inserts (4,40), autocommit *)
+    (2%N, Write 0%N (Ins [(4, 40)]));              (* session 2 inserts (4,40), autocommit *)
     (0%N, Read 0%N);                               (* a third session sees it: it is committed *)
     (1%N, Commit);                                 (* session 1 commits a transaction without writes *)
     (0%N, Read 0%N) ].                             (* the committed row is gone *)
 
 Lemma lost_update_results :
-  snd (run capply (init (fun _ => [(1%Z, 10%Z)])) lost_update_history) =
-  [ ROk; RRows [(1%Z, 10%Z)]; ROk; RRows [(1%Z, 10%Z); (4%Z, 40%Z)]; ROk; RRows [(1%Z, 10%Z)] ].
+  snd (crun (init (fun _ => [(1, 10)])) lost_update_history) =
+  [ ROk; RRows [(1, 10)]; ROk; RRows [(1, 10); (4, 40)]; ROk; RRows [(1, 10)] ].
 Proof. vm_compute. reflexivity. Qed.
 
+(* an unfiltered DELETE FROM t0 registers EVERY table in the session: a later read of t1 inside the own open
+   transaction is the snapshot taken then, and the commit republishes it (overlapping transactions) *)
+Definition delete_all_history : list (sid * stmt cwop cmop) :=
+  [ (1%N, Begin); (1%N, WriteAll 0%N DelAll);      (* session 1 empties table 0 *)
+    (2%N, Write 1%N (Ins [(6, 6)]));               (* session 2 inserts into table 1, autocommit *)
+    (0%N, Read 1%N);                               (* committed *)
+    (1%N, Read 1%N);                               (* session 1 reads table 1 for the first time: the old contents *)
+    (1%N, Commit); (0%N, Read 1%N) ].              (* and its commit puts the old contents back *)
+
+Lemma delete_all_results :
+  snd (crun (init tabs0) delete_all_history) =
+  [ ROk; ROk; ROk; RRows [(1, 1); (6, 6)]; RRows [(1, 1)]; ROk; RRows [(1, 1)] ].
+Proof. vm_compute. reflexivity. Qed.
+
+(* the implicit commit of a DDL statement ends the transaction (its work is published, no transaction object is
+   left, autocommit is on) but ignoreAutocommit stays set: the next INSERT succeeds, is NOT committed on its
+   own, and a ROLLBACK discards it *)
+Definition after_ddl : state rows :=
+  fst (crun (init tabs0) [(1%N, Begin); (1%N, Write 0%N (Ins [(2, 20)])); (1%N, Ddl [])]).
+
+Lemma not_autocommitted_after_implicit_commit :
+  tx (ss after_ddl 1%N) = false /\ ac (ss after_ddl 1%N) = true /\ db after_ddl 0%N = [(1, 10); (2, 20)] /\
+  capply (Ins [(3, 30)]) (db after_ddl 0%N) = Some [(1, 10); (2, 20); (3, 30)] /\
+  snd (cstep after_ddl 1%N (Write 0%N (Ins [(3, 30)]))) = ROk /\
+  db (fst (cstep after_ddl 1%N (Write 0%N (Ins [(3, 30)])))) 0%N = [(1, 10); (2, 20)] /\
+  snd (crun after_ddl [(1%N, Write 0%N (Ins [(3, 30)])); (0%N, Read 0%N); (1%N, Rollback); (1%N, Read 0%N)]) =
+    [ROk; RRows [(1, 10); (2, 20)]; ROk; RRows [(1, 10); (2, 20)]].
+Proof. vm_compute. repeat split; reflexivity. Qed.
+
+Lemma not_autocommitted_witness :
+  exists (st : state rows) s t w x,
+    st = fst (crun (init tabs0) [(1%N, Begin); (1%N, Write 0%N (Ins [(2, 20)])); (1%N, Ddl [])]) /\
+    tx (ss st s) = false /\ ac (ss st s) = true /\
+    capply w (db st t) = Some x /\ x <> db st t /\
+    snd (cstep st s (Write t w)) = ROk /\ db (fst (cstep st s (Write t w))) t = db st t /\
+    snd (crun st [(s, Write t w); (0%N, Read t); (s, Rollback); (s, Read t)]) = [ROk; RRows (db st t); ROk; RRows (db st t)].
+Proof.
+  exists after_ddl, 1%N, 0%N, (Ins [(3, 30)]), [(1, 10); (2, 20); (3, 30)].
+  destruct not_autocommitted_after_implicit_commit as (H1 & H2 & H3 & H4 & H5 & H6 & H7).
+  rewrite H3. repeat split; auto; discriminate.
+Qed.
+
+Definition example_blocks : list (block cwop cmop) :=
+  [Txn 1%N (KBegin false) [RWrite 0%N (Ins [(2, 20)]); RRead 0%N] None true; Auto 2%N (RRead 0%N);
+   Txn 2%N (KBegin false) [RWrite 0%N (DelKey 1)] None false;
+   Txn 1%N KOff [RWrite 0%N (Ins [(3, 30)]); RSavepoint] (Some (IDdl [0%N])) false;
+   Txn 2%N (KBegin true) [RWrite 0%N (DelKey 1); RMulti (MJoinRead 0%N 1%N)] None true;
+   AutoIC 2%N (IWrite 1%N DelAll); Auto 1%N (RMulti (MInsSel 1%N 0%N 10)); Auto 1%N (RRead 1%N)].
+
 Lemma nonvacuous_example :
-  let st0 := fst (step capply (init (fun _ => [(1%Z, 10%Z)])) 1%N Begin) in
-  holding rows (ss st0 1%N) /\ all_idle rows (init (fun _ : tid => [(1%Z, 10%Z)])) /\
-  snd (run capply (init (fun _ => [(1%Z, 10%Z)]))
-         (flat_map flatten [Txn 1%N [RWrite 0%N (Ins [(2%Z, 20%Z)]); RRead 0%N] true; Auto 2%N (RRead 0%N);
-                            Txn 2%N [RWrite 0%N (DelKey 1%Z)] false; Auto 1%N (RRead 0%N)])) =
-  [ROk; ROk; RRows [(1%Z, 10%Z); (2%Z, 20%Z)]; ROk; RRows [(1%Z, 10%Z); (2%Z, 20%Z)]; ROk; ROk; ROk;
-   RRows [(1%Z, 10%Z); (2%Z, 20%Z)]].
+  let st0 := fst (cstep (init tabs0) 1%N Begin) in
+  holding rows (ss st0 1%N) /\ all_idle rows (init tabs0) /\
+  snd (crun (init tabs0) (flat_map flatten example_blocks)) =
+  [ROk; ROk; RRows [(1, 10); (2, 20)]; ROk; RRows [(1, 10); (2, 20)];
+   ROk; ROk; ROk; ROk; ROk; RErr; ROk; ROk; ROk; ROk; RErr;
+   RRows [(1, 11)]; ROk; ROk; ROk; RRows [(11, 10); (12, 20); (13, 30)]].
 Proof.
   split; [|split].
-  - split; [reflexivity|left; reflexivity].
+  - left; reflexivity.
   - intros s. repeat split.
   - vm_compute. reflexivity.
 Qed.
